@@ -16,7 +16,7 @@ ENTRY = dict(
                 "sends/registers/callsDone; every blocking channel operation reachable in a goroutine body with its ctx.Done "
                 "alternative and channel capacity), as dichotomies that build on either side of a repair, plus a no-regression "
                 "obligation that breaks when a row that is fine today loses its cancellation alternative, buffered reply or "
-                "registration. Tied to the code by a cancellation-point sweep on the real engine: 12 programs (15 thorough) "
+                "registration. Tied to the code by a cancellation-point sweep on the real engine: 13 programs (16 thorough) "
                 "covering all node kinds x every cancellation point (number of traces before the cancel), one OS process per "
                 "case, goroutine census by function and parking site, CPU-based spin detection; every leftover goroutine is "
                 "compared with what the tables predict."),
@@ -40,7 +40,7 @@ ENTRY = dict(
     multi_seed=False,
     rule=("c07: for each program of the corpus (two tasks in sequence; parallel fork/join; exclusive split/merge; inclusive "
           "fork/join; signal catch event; timer catch event on the mock clock; embedded sub-process with an inner task; "
-          "non-interrupting boundary event armed / fired; event-based gateway; loop; throw event; thorough adds sub-process "
+          "non-interrupting boundary event armed / fired; event-based gateway; loop; throw event; task answered with an error and an error-handler channel on which the driver never sends a decision; thorough adds sub-process "
           "with a parallel block, parallel block with a catch event, exclusive inside inclusive, each x 3 repetitions with "
           "schedule perturbation 0/1/2) and EVERY cancellation point i = 0..(number of traces of the uncancelled run)+1: the "
           "real engine is run until i traces have been broadcast (tasks answered, signals delivered, the clock advanced by a "
